@@ -206,6 +206,11 @@ def _case(draw):
         if k == 0:
             lines.append({"tokens": [], "seps": [], "lead": draw(st.sampled_from(["", "", " ", "\t", "  "])), "trail": "", "eol": eol})
             continue
+        if k == 9 and draw(st.booleans()):
+            # a line made only of quotes / brackets / terminators (closing line of a multi-line value)
+            tok = draw(st.sampled_from(['";', '"', "'", '"}', '",', "};", "]", "}", '\\"', "';", '""', "{", "[", '"];', ",", ";"]))
+            lines.append({"tokens": [{"s": tok, "kind": "benign"}], "seps": [], "lead": draw(_lead), "trail": draw(st.sampled_from(["", "", " "])), "eol": eol})
+            continue
         if k == 1:
             form = draw(st.sampled_from(_POS1 if draw(st.integers(0, 3)) else _SCRUB))
             v = draw(S.secret_for(form))[1]
